@@ -1,0 +1,10 @@
+//go:build verif
+
+package callable
+
+// VerifC06Live reports whether the call was started (Start) and has not been cancelled since:
+// its goroutine may still be parked on the await channel.  Read-only; used by the C06 harness
+// to observe "pending hook calls have been cancelled" after a teardown.
+func (c *Call) VerifC06Live() bool {
+	return c != nil && c.await != nil && c.awaitCancel != nil
+}
